@@ -593,6 +593,50 @@ def rule_f_cmp(ctx, f, tag):
 
 
 # ------------------------------------------------------------------------------------------ run
+def fn_refs(f, body):
+    """paths of every function the family of `body` calls or mentions as a function item (`map(Value::new)`)"""
+    out = set()
+    for g in f.family(body):
+        for c in mir.calls(g):
+            out.add(c.callee)   # the resolved callee: `Self::from(&v[..])` is <Array as From<&[T]>>::from, not From::from
+            for a in c.args:
+                if a[0] == "k" and a[1].get("fn"):
+                    out.add(a[1]["fn"])
+        for bi, i, pl, rv, ln in mir.assignments(g):
+            for op in mir.rvalue_operands(rv):
+                if op[0] == "k" and op[1].get("fn"):
+                    out.add(op[1]["fn"])
+    return {x for x in out if x}
+
+
+def rule_t_elem(ctx, f, tag):
+    """T-ELEM (added after seeded change C08b): an `Array` reports `a` + `T::SIGNATURE` as its signature, so every
+    element must be stored in the form that has that signature. For `T = Value` that is the *wrapped* form
+    `Value::Value(Box<..>)`, which only `Value::new` produces; `Into::into` stores the bare inner value. Every generic
+    constructor `From<..T..> for Array` therefore converts its elements with `Value::new` (or delegates to a sibling
+    that does) and never with `Into::into` / `From::from` -- the sibling constructors must agree."""
+    ARR = "zvariant::array::Array"
+    n = 0
+    for b in f.find(name="from", trait="core::convert::From", crate="zvariant"):
+        if b.d.get("impl_adt") != ARR:
+            continue
+        arg = trait_arg(b.d.get("impl_trait_full"), "core::convert::From") or ""
+        if not re.search(r"(^|[^\w])T($|[^\w])", arg):
+            continue   # not generic over the element type
+        n += 1
+        refs = fn_refs(f, b)
+        uses_new = any(r.startswith(VALUE + "::") and r.endswith("::new") for r in refs)
+        delegates = any(r.startswith("<" + ARR) and r.endswith("::from") and r != b.id for r in refs)
+        bare = sorted(r for r in refs if r in ("core::convert::Into::into", "core::convert::From::from")
+                      or (r.endswith("::into") and "Into<" in r and "Value" in r))
+        ok = (uses_new or delegates) and not bare
+        ctx.ob("T-ELEM", "%sarray-elements-through-Value::new:%s" % (tag, norm_type(arg)), ok,
+               "elements are converted with %s" % ("Value::new" if uses_new else "a sibling Array::from") if ok else
+               "elements of Array::from(%s) are converted with %s: a slice of Value / OwnedValue is stored unwrapped although the "
+               "array reports element signature `v`" % (arg, bare or "something other than Value::new"), b.where)
+    ctx.floor("T-ELEM", tag + "generic From<..T..> for Array constructors", n, 3)
+
+
 def check_config(ctx, f, tag):
     ctx.need([f.adts.get(VALUE)] if f.adts.get(VALUE) else [], tag + "ADT " + VALUE)
     rule_t_id(ctx, f, tag)
@@ -602,6 +646,7 @@ def check_config(ctx, f, tag):
     rule_h_eq(ctx, f, tag)
     rule_h_derive(ctx, f, tag)
     rule_f_cmp(ctx, f, tag)
+    rule_t_elem(ctx, f, tag)
 
 
 def run(ctx):
